@@ -165,6 +165,8 @@ CONC_CLAUSES = {
     'C01': ['C01_table_stable_conc'],
     'C02': ['C02_one_per_scope_conc', 'C02_one_write_conc', 'C02_failed_ctor_caches_nothing'],
     'C10': ['C10_exactly_once_conc', 'C10_not_early_conc'],
+    # ordering under overlap: a Close returns only after the disposal of every child of its snapshot has completed
+    'C11': ['C12_child_error_collected_conc', 'C12_idempotent_conc'],
     'C12': ['C12_idempotent_conc', 'C12_child_error_collected_conc'],
     'C13': ['C13_overlap', 'C13_singleton_overlap_reports_disposed'],
     'C14': ['C14_no_stale_child_in_provider_table', 'C14_no_stale_child_when_idle'],
